@@ -146,6 +146,12 @@ impl Check for C16 {
                     _ => continue,
                 };
                 let mut buf = [0u8; 4];
+                // a feed() loop stays a feed() loop: it never collects garbage, so the primary can
+                // enter the excursion with a trim still pending
+                let by_feed = matches!(e, Event::Feed { .. });
+                if by_feed {
+                    st.bump("events_delivered_by_feed_loop");
+                }
                 for ch in s.chars() {
                     // look ahead with the reference parser: will this character enter / leave?
                     let rf = refp.feed(ch);
@@ -159,7 +165,11 @@ impl Check for C16 {
                     let was_alt = live.hid.alt;
                     let pre_resized = live.hid.resized_in_alt;
                     let f = live.parser.feed(ch);
-                    live.vt.feed_str(ch.encode_utf8(&mut buf));
+                    if by_feed {
+                        live.vt.feed(ch);
+                    } else {
+                        live.vt.feed_str(ch.encode_utf8(&mut buf));
+                    }
                     if let Some(f) = &f {
                         live.track(f);
                     }
@@ -195,11 +205,23 @@ impl Check for C16 {
                         let ctx_s = format!("excursion entered at event #{} left at event #{} ({}x{})", en.event, ei, cols, rows);
                         if !resized {
                             st.bump("excursions_without_resize");
-                            if live.vt.lines() != &en.lines[..] {
-                                return Verdict::Violation { rule: "C16/primary-lines-changed".into(), detail: format!("{}: primary lines() differ from what they were on entry ({} vs {} lines)", ctx_s, live.vt.lines().len(), en.lines.len()) };
-                            }
-                            if live.vt.text() != en.text {
-                                return Verdict::Violation { rule: "C16/text-changed".into(), detail: format!("{}: text() differs after return", ctx_s) };
+                            let now = live.vt.lines();
+                            if t.config.limit.is_none() {
+                                if now != &en.lines[..] {
+                                    return Verdict::Violation { rule: "C16/primary-lines-changed".into(), detail: format!("{}: primary lines() differ from what they were on entry ({} vs {} lines)", ctx_s, now.len(), en.lines.len()) };
+                                }
+                                if live.vt.text() != en.text {
+                                    return Verdict::Violation { rule: "C16/text-changed".into(), detail: format!("{}: text() differs after return", ctx_s) };
+                                }
+                            } else {
+                                // under a limit the call that returns may run a trim that was pending
+                                // since before the excursion: the oldest lines may be gone, nothing else
+                                if now.len() > en.lines.len() || now != &en.lines[en.lines.len() - now.len()..] {
+                                    return Verdict::Violation { rule: "C16/primary-lines-changed".into(), detail: format!("{}: primary lines() after return ({} lines) are not the newest part of what they were on entry ({} lines)", ctx_s, now.len(), en.lines.len()) };
+                                }
+                                if now.len() < en.lines.len() {
+                                    st.bump("pending_trim_ran_on_return");
+                                }
                             }
                             if en.by_1049 && by_1049_out {
                                 st.bump("cursor_restored_1049");
@@ -262,12 +284,12 @@ impl Check for C16 {
     }
     fn meta(&self) -> Meta {
         Meta {
-            rule: "primary history (scrollback, saved cursor) -> enter by 47 / 1047 / 1049 -> arbitrary input on the alternate screen (no leave, no RIS) interleaved with resizes (half of the runs) and cursor moves -> leave by any of the three (mixed), 1-2 excursions per run, one character per feed_str call; oracle: on entry the alternate screen is blank in the current pen and has no scrollback; without resize text() is constant throughout, primary lines() identical after return, a 1049/1049 excursion restores the cursor; with resizes the primary's logical lines on return are never altered (at most cut short at the end), geometry holds, and a 1049/1049 excursion puts the cursor on the same character when it was on one; non-trivial = >= 1 excursion judged; distinct = digests of (cursor after return, resized, exit mode, final screen)",
+            rule: "primary history (scrollback, saved cursor) -> enter by 47 / 1047 / 1049 -> arbitrary input on the alternate screen (no leave, no RIS) interleaved with resizes (half of the runs) and cursor moves -> leave by any of the three (mixed), 1-2 excursions per run, one character per call (feed_str, or feed() where the schedule says feed loop - which never collects garbage, so a trim can be pending on entry); oracle: on entry the alternate screen is blank in the current pen and has no scrollback; without resize text() is constant throughout, primary lines() identical after return, a 1049/1049 excursion restores the cursor; with resizes the primary's logical lines on return are never altered (at most cut short at the end), geometry holds, and a 1049/1049 excursion puts the cursor on the same character when it was on one; non-trivial = >= 1 excursion judged; distinct = digests of (cursor after return, resized, exit mode, final screen)",
             assumptions: vec!["entry / exit are recognised from the function stream (reference parser look-ahead for the snapshot before entry)", "'current pen' at entry is the tracker's fold of the SGR functions", "runs with resizes use unlimited scrollback (a limit may legitimately trim re-wrapped lines at the top)", "a run in which avt panics is abandoned"],
             real: vec!["avt::Vt", "avt::parser::Parser (lock-step)"],
             simulated: vec!["App (primary history, alternate-screen input)", "Window (resizes during the excursion)"],
             model: vec!["RefParser (look-ahead)", "hidden-state tracker (alternate flag, pen, resized-during-excursion)", "logical-line relation"],
-            probes: vec!["entries", "excursions_judged", "excursions_without_resize", "excursions_with_resize", "cursor_restored_1049", "cursor_same_character_1049_resized", "text_checked_during_excursion", "resize_during_excursion"],
+            probes: vec!["events_delivered_by_feed_loop", "pending_trim_ran_on_return", "entries", "excursions_judged", "excursions_without_resize", "excursions_with_resize", "cursor_restored_1049", "cursor_same_character_1049_resized", "text_checked_during_excursion", "resize_during_excursion"],
             fault_kinds: vec!["resize_events", "resize_while_alternate", "resize_mid_sequence"],
         }
     }
